@@ -512,9 +512,15 @@ class _Run(object):
                 st[d] = ANY
             return st
         if isinstance(a, ast.Assert):
+            # An assertion states an invariant of the code: its test is evaluated (the operations in it can raise) and the
+            # invariant is assumed afterwards; whether it can fail is decided where values are known (the E7 tables run the
+            # same statement on their representatives), not by this type-level analysis.
             self.ev(a.test, st, node)
-            self.raise_("AssertionError", node, "assert")
-            return st
+            try:
+                t_ = self.narrow(a.test, True, st, node)
+                return t_ if t_ is not None else st
+            except AnalysisError:
+                return st
         if isinstance(a, ast.AnnAssign):
             if a.value is not None:
                 v = self.ev(a.value, st, node)
